@@ -91,7 +91,7 @@ Proof.
 Qed.
 
 (* a worker that is not handed a task: nothing is queued in its size class queue *)
-Lemma assign_next_none : forall w s, NoDup (map fst (s_invs s)) -> QPs s ->
+Lemma assign_next_nothing_queued : forall w s, NoDup (map fst (s_invs s)) -> QPs s ->
   snd (assign_next_queued_task w s) = false -> is_queued s (mkI (w_sk w) []) = false.
 Proof.
   intros w s Hnd HQ H. destruct (is_queued s (mkI (w_sk w) [])) eqn:Eq; [|reflexivity]. exfalso.
